@@ -257,3 +257,29 @@ pub fn write_shards(out: &str, header: &str, cases: &[(usize, String)], shards: 
     }
     names
 }
+
+/// A term index type with a tiny capacity, built from the public `Index` trait:
+/// `GenericFastGraph<SimpleTermIndex<SmallIdx<M>>>` can hold M-1 distinct terms
+/// (the value MAX itself is reserved), so "term index full" is reachable with short inputs.
+#[derive(Clone, Copy, Debug, Default, PartialEq, Eq, PartialOrd, Ord)]
+pub struct SmallIdx<const M: u8>(pub u8);
+impl<const M: u8> sophia_inmem::index::Index for SmallIdx<M> {
+    const ZERO: Self = SmallIdx(0);
+    const MAX: Self = SmallIdx(M);
+    fn from_usize(other: usize) -> Self {
+        SmallIdx(u8::try_from(other).expect("usize too big for SmallIdx"))
+    }
+    fn into_usize(self) -> usize {
+        self.0 as usize
+    }
+}
+
+/// error value carried through pipelines
+#[derive(Debug, Clone, Copy, PartialEq, Eq)]
+pub struct MyErr(pub u64);
+impl std::fmt::Display for MyErr {
+    fn fmt(&self, f: &mut std::fmt::Formatter<'_>) -> std::fmt::Result {
+        write!(f, "MyErr({})", self.0)
+    }
+}
+impl std::error::Error for MyErr {}
